@@ -86,6 +86,30 @@ Example history_config_independent_guarded_nonvacuous :
   snd (arun cfg_default [APush 1; ARem 7; ALen]%Z []) = [ODone; ORaise XValueError; OVal 1%Z].
 Proof. split; reflexivity. Qed.
 
+(* 3c. how C18 composes with the functional properties: if the DEFAULT build meets a configuration-free
+       specification of an API and the specification is defined only inside the contract, then EVERY
+       build computes the specification's transcript and final state on every history it accepts *)
+Theorem default_spec_lifts_to_every_build :
+  forall (St Val Op : Type) (body : Op -> prog St Val) (spec : Op -> St -> option (St * outcome Val)),
+  (forall o s T r, types_ok T -> spec o s = Some r -> fires St Val (body o) s T = false) ->
+  (forall o s T s' r, types_ok T -> spec o s = Some (s', r) ->
+     rst St Val (run St Val cfg_default (body o) s T) = s' /\ rout St Val (run St Val cfg_default (body o) s T) = r) ->
+  (forall o s s' r, spec o s = Some (s', r) -> is_crash Val r = false) ->
+  forall (h : list Op) (s : St) (T : types) (c : config),
+  types_ok T -> all_some (snd (spec_history St Val Op spec h s)) = true ->
+  hst St Val (run_history St Val Op body c h s T) = fst (spec_history St Val Op spec h s) /\
+  hout St Val (run_history St Val Op body c h s T) = strip OCrash (snd (spec_history St Val Op spec h s)).
+Proof. exact ConfigProofs.every_build_meets_spec. Qed.
+Print Assumptions default_spec_lifts_to_every_build.
+
+(* its hypotheses are satisfiable: the Array API with its list specification fulfils all three *)
+Example default_spec_lifts_to_every_build_nonvacuous :
+  (forall o s T r, types_ok T -> aspec o s = Some r -> fires aseq Z (abody o) s T = false) /\
+  (forall o s T s' r, types_ok T -> aspec o s = Some (s', r) ->
+     rst aseq Z (run aseq Z cfg_default (abody o) s T) = s' /\ rout aseq Z (run aseq Z cfg_default (abody o) s T) = r) /\
+  (forall o s s' r, aspec o s = Some (s', r) -> is_crash Z r = false).
+Proof. exact ConfigProofs.array_lift_hypotheses. Qed.
+
 (* 4. Type.c alone: on a type whose filled slots are sound, any sequence of lookups returns the same
       instances with the cache (CELLO_CACHE == 1) as without; a freshly initialised type is sound.
       Needs that no two classes share a slot — re-checked on the wiring extracted from Type_Instance *)
